@@ -121,6 +121,16 @@ def _usec_kind(e, f, ctx, env, depth=0):
                 if k is not None:
                     return ("padded", k)
         return ("digits",)
+    if isinstance(e, ast.Name):
+        # a local computed from the digit group: follow its closest preceding definition (not the statement the name itself sits in)
+        defs = sorted(((n.lineno, n.value) for n in iter_own_nodes(f.node) if isinstance(n, ast.Assign)
+                       and any(isinstance(t, ast.Name) and t.id == e.id for t in n.targets)
+                       and n.lineno <= getattr(e, "lineno", 10 ** 9) and not any(x is e for x in ast.walk(n.value))), key=lambda x: x[0])
+        if defs:
+            if numeric_string(defs[-1][1], f, ctx.ix) and not isinstance(defs[-1][1], ast.Constant):
+                return ("digits",)
+            return _usec_kind(defs[-1][1], f, ctx, env, depth + 1)
+        return None
     if isinstance(e, ast.BinOp) and isinstance(e.op, ast.Add):
         l = _usec_kind(e.left, f, ctx, env, depth + 1)
         if l == ("digits",):
